@@ -65,7 +65,7 @@ def op_lexer(task):
     # alone, after other tokens, and with each alternative spelling of its special characters
     lexemes = ['"abc"', '"a\\n\\t\\\\b"', '"\\x41z"', '"\\x4"', '"\\101"', '"\\7"', '"\\q"', 'L"w"', 'u8"s"', "'a'", "'\\x7f'",
                "'\\0'", "'\\''", "L'a'", "''", "/* c */", "/* a\n b */", "// line\n", "//\\\nx\n", "0x1F", "0x1.8p+3f",
-               "0b101", "017", "1.5e-3L", "12ull", ".5f", "1e", "0x", "1..2", "abc_1", "__attribute__", ">>=", "->", "...",
+               "0b101", "017", "1.5e-3L", "0xe+1", "0x1E-2u", "1e+", "12lL", "0778", "0b12", "1.2.3", "0xx1.0p1", "'ab'", "12ull", ".5f", "1e", "0x", "1..2", "abc_1", "__attribute__", ">>=", "->", "...",
                "??=", "??/\nx", "<%", "%:%:", "#include <a.h>\n", "a\\\nb", "@", "\\"]
     pre = ["", "x = ", "\t"]
     fam = 0
